@@ -215,8 +215,11 @@ class Register(GlobalVar):
             case _:
                 raise ValueError(f"Register {reg_name} has no class assigned.")
 
+        # Rdd, Rss etc. But not R11.
         is_double = ":" in reg_name or (
-            len(reg_name) > 2 and reg_name[1] == reg_name[2]
+            len(reg_name) > 2
+            and reg_name[1].isalpha()
+            and reg_name[1] == reg_name[2]
         )
         if is_double:
             if reg_name[0] == "R":
